@@ -385,7 +385,11 @@ func runValues(u *vk.Unit, p *reg.Package, meta Meta, pkg string) {
 						u.Report(vk.F("float64-json-decode-off-by-one-ulp", "type %s: decode(encode(v)) differs from v at %s (json %s)", n, where, b), cs)
 						continue
 					}
-					u.Report(vk.F("value-roundtrip-differs", "type %s: decode(encode(v)) differs from v at %s (json %s)", n, where, b), cs)
+					cl := "value-roundtrip-differs"
+					if nilNamedArrayItemAt(pv.Elem(), where) {
+						cl = "nil-item-of-named-array-type-dropped"
+					}
+					u.Report(vk.F(cl, "type %s: decode(encode(v)) differs from v at %s (json %s)", n, where, b), cs)
 					continue
 				}
 				b2, err := marshal(pv2)
@@ -439,11 +443,79 @@ func duplicatesAreTimeTexts(doc any, path string) bool {
 	if !ok || len(l) == 0 {
 		return false
 	}
+	texts := 0
 	for _, e := range l {
+		if e == nil {
+			continue // nullable items
+		}
 		st, ok := e.(string)
 		if !ok || !timeTextRe.MatchString(st) {
 			return false
 		}
+		texts++
 	}
-	return true
+	return texts > 0
+}
+
+var wherePathRe = regexp.MustCompile(`^((?:\.[A-Za-z0-9_]+|\[[0-9]+\])*): len [0-9]+ vs [0-9]+`)
+
+// nilNamedArrayItemAt: the place that differs is a slice whose items are of a NAMED slice type (a
+// component that is an array) and one of the items is nil. ogen gives such a type ONE meaning of nil
+// for all its uses (taken from a use as an optional member: "absent"), so as an array item a nil value
+// is written as nothing and the array loses the item.
+func nilNamedArrayItemAt(v reflect.Value, where string) bool {
+	m := wherePathRe.FindStringSubmatch(where)
+	if m == nil {
+		return false
+	}
+	cur := v
+	rest := m[1]
+	for rest != "" {
+		for cur.Kind() == reflect.Pointer || cur.Kind() == reflect.Interface {
+			if cur.IsNil() {
+				return false
+			}
+			cur = cur.Elem()
+		}
+		switch rest[0] {
+		case '.':
+			rest = rest[1:]
+			end := strings.IndexAny(rest, ".[")
+			if end < 0 {
+				end = len(rest)
+			}
+			if cur.Kind() != reflect.Struct {
+				return false
+			}
+			cur = cur.FieldByName(rest[:end])
+			if !cur.IsValid() {
+				return false
+			}
+			rest = rest[end:]
+		case '[':
+			end := strings.IndexByte(rest, ']')
+			i, err := strconv.Atoi(rest[1:end])
+			if err != nil || (cur.Kind() != reflect.Slice && cur.Kind() != reflect.Array) || i >= cur.Len() {
+				return false
+			}
+			cur, rest = cur.Index(i), rest[end+1:]
+		default:
+			return false
+		}
+	}
+	for cur.Kind() == reflect.Pointer || cur.Kind() == reflect.Interface {
+		if cur.IsNil() {
+			return false
+		}
+		cur = cur.Elem()
+	}
+	if cur.Kind() != reflect.Slice || cur.Type().Elem().Kind() != reflect.Slice || cur.Type().Elem().Name() == "" {
+		return false
+	}
+	for i := 0; i < cur.Len(); i++ {
+		if cur.Index(i).IsNil() {
+			return true
+		}
+	}
+	return false
 }
